@@ -305,9 +305,17 @@ int DetailedPlacement::siteEnd(int row, int pred) const {
   return next == -1 ? rows_[row].maxX : cellX(next);
 }
 
+bool DetailedPlacement::isRowCompatible(int c, int row) const {
+  return cellOrientationInRow(cellRowPolarity_[c], rows_[row].orientation) !=
+         CellOrientation::INVALID;
+}
+
 bool DetailedPlacement::canPlace(int c, int row, int pred, int x) const {
   if (isPlaced(c)) {
     throw std::runtime_error("Cannot attempt to place already placed cell");
+  }
+  if (!isRowCompatible(c, row)) {
+    return false;
   }
   return x >= siteBegin(row, pred) && x + cellWidth(c) <= siteEnd(row, pred);
 }
@@ -325,6 +333,10 @@ bool DetailedPlacement::canInsert(int c, int row, int pred) const {
     // Do not insert before itself
     return false;
   }
+  if (!isRowCompatible(c, row)) {
+    // Forbidden by the row polarity of the cell
+    return false;
+  }
   return siteEnd(row, pred) - siteBegin(row, pred) >= cellWidth(c);
 }
 
@@ -334,6 +346,10 @@ bool DetailedPlacement::canSwap(int c1, int c2) const {
   }
   if (c1 == c2) {
     // Do not swap a cell with itself
+    return false;
+  }
+  if (!isRowCompatible(c1, cellRow(c2)) || !isRowCompatible(c2, cellRow(c1))) {
+    // Forbidden by the row polarity of the cells
     return false;
   }
   if (cellPred(c1) == c2 || cellPred(c2) == c1) {
